@@ -4,7 +4,7 @@
 wt="$1"; out="${2:-$wt/seed_out}"
 set -u
 cd "$wt" || exit 2
-git stash -q 2>/dev/null; git checkout -q -- . 2>/dev/null
+git checkout -q -- . 2>/dev/null
 cmake -G Ninja -S "$wt" -B "$wt/_build_orig" -DCMAKE_CXX_COMPILER=clang++-16 -DCMAKE_C_COMPILER=clang-16 -DCMAKE_BUILD_TYPE=RelWithDebInfo -DCMAKE_CXX_FLAGS=-Wno-error -DBUILD_TESTING=ON >/dev/null 2>&1
 cmake --build "$wt/_build_orig" -j12 >/dev/null 2>&1 || { echo "orig build failed"; exit 2; }
 (sh "$out/run_demo.sh" "$wt/_build_orig" >/tmp/confirm_orig.log 2>&1); r0=$?
